@@ -196,7 +196,8 @@ def main(argv=None):
     replay_dir = os.path.join(VERIF, "replays", prop)
     driver_result = None
     failed_clauses = sorted({clause_of(ob["name"]) for ob in failed})
-    if failed_clauses or tier == "thorough" or P.get("always_native"):
+    engine_errors_early = [u for u in units if u.get("error")]
+    if failed_clauses or tier == "thorough" or P.get("always_native") or engine_errors_early:
         if P.get("driver"):
             os.makedirs(replay_dir, exist_ok=True)
             out_json = os.path.join(replay_dir, "native_search.json")
@@ -239,8 +240,12 @@ def main(argv=None):
     # a failing native input without any failed obligation is a hole in the contracts: report it too
     if native_fail and not failed_clauses:
         rp = os.path.join(replay_dir, "native_only.json")
-        json.dump({"property": prop, "obligation": None, "native_failing_inputs": native_fail[:5]}, open(rp, "w"), indent=1)
-        violations.append(("native-battery", rp, ""))
+        json.dump({"property": prop, "obligation": None, "native_failing_inputs": native_fail[:5],
+                   "engine_errors": [{"unit": u["name"], "error": u["error"]} for u in engine_errors_early],
+                   "note": "the functions named under engine_errors left the verifier's Python subset on this tree; "
+                           "the bounded native battery (not proof) found the failing input below"},
+                  open(rp, "w"), indent=1)
+        violations.append(("native-battery(bounded)", rp, ""))
 
     wall = time.time() - t_start
     by_backend = {}
